@@ -176,6 +176,13 @@ def delAll (ks : List RKey) (r : Reg) : Reg := ks.foldl (fun acc k => del k acc)
 def regApply (roots added updated : List (RKey × String)) (removed : List RKey) (r : Reg) : Reg :=
   delAll removed (putAll updated (putAll added (putAll roots r)))
 
+/-- `registryOnDisk.Replicate` on the passive registry: the adds and sets are upserts; `registryMap.remove` refuses
+("can't delete a missing item") when a record is not there — then nothing of the removal is applied and the caller
+marks replication as failed. -/
+def regReplicate (roots added updated : List (RKey × String)) (removed : List RKey) (r : Reg) : Reg × Bool :=
+  let r1 := putAll updated (putAll added (putAll roots r))
+  if removed.all (fun k => (get k r1).isSome) then (delAll removed r1, true) else (r1, false)
+
 def passiveBlocked (b : Broken) (store : String) : Bool :=
   match b with
   | .none => false
@@ -205,24 +212,35 @@ def create (s : State) (name : String) (slot : Nat) (unique : Bool) : State × S
       -- side, its passive replay fails again) and rolls back. FailedToReplicate is not touched.
       (setActive s rt { a with list := some (a.list.getD []) }, "err:create")
 
-/-- A transaction commits into store `name`: new count and the registry changes (final handle images). -/
-def commit (s : State) (name : String) (count : Int) (roots added updated : List (RKey × String)) (removed : List RKey) :
+/-- A transaction commits into store `name`: the new count (`none` when the count delta is 0: then the store info is
+neither updated nor replicated nor logged) and the registry changes (final handle images). -/
+def commit (s : State) (name : String) (count : Option Int) (roots added updated : List (RKey × String)) (removed : List RKey) :
     State × String :=
   let (s, rt) := newTracker s
   let a := active s rt
   match get name a.infos with
   | none => (s, "bad-op")
   | some i =>
-    let i' := { i with count := count }
-    let s := setActive s rt { a with infos := put name i' a.infos, reg := regApply roots added updated removed a.reg }
-    let (s, rt') :=
-      if rt.failed then (s, rt)
-      else if passiveBlocked s.broken name then handleFailed s rt
+    let i' : Info := match count with
+      | some c => { i with count := c }
+      | none => i
+    let upd (infos : List (String × Info)) : List (String × Info) := if count.isSome then put name i' infos else infos
+    let s := setActive s rt { a with infos := upd a.infos, reg := regApply roots added updated removed a.reg }
+    let s :=
+      if rt.failed then s
+      else if passiveBlocked s.broken name then (handleFailed s rt).1
       else
         let p := passive s rt
-        (setPassive s rt { p with infos := put name i' p.infos, reg := regApply roots added updated removed p.reg }, rt)
-    let _ := rt'
-    let s := if rt.logc then { s with logs := s.logs ++ [{ stores := [(name, count)], roots := roots, added := added, updated := updated, removed := removed }] } else s
+        let rr := regReplicate roots added updated removed p.reg
+        if rr.2 then setPassive s rt { p with infos := upd p.infos, reg := rr.1 }
+        else
+          -- registry replication failed on a writable passive folder. StoreRepository.Replicate runs concurrently and
+          -- reads the (unsynchronised) flag; the outcome modelled is the one observed: the info file is not written.
+          (handleFailed (setPassive s rt { p with reg := rr.1 }) rt).1
+    let stores : List (String × Int) := match count with
+      | some c => [(name, c)]
+      | none => []
+    let s := if rt.logc then { s with logs := s.logs ++ [{ stores := stores, roots := roots, added := added, updated := updated, removed := removed }] } else s
     (s, "ok")
 
 /-- `RemoveBtree(name)` -/
@@ -329,7 +347,7 @@ def heal (s : State) (keep : Bool) : State :=
 
 inductive Op
   | create (name : String) (slot : Nat) (unique : Bool)
-  | commit (name : String) (count : Int) (roots added updated : List (RKey × String)) (removed : List RKey)
+  | commit (name : String) (count : Option Int) (roots added updated : List (RKey × String)) (removed : List RKey)
   | remove (name : String)
   | brk (b : Broken)
   | heal (keep : Bool)
